@@ -17,9 +17,9 @@ theorem flatMap_take_append {α} (rows : List (List α)) (vd : Nat) (t : List α
 /-- mumax3 writes a blank at the end of every text row, which the csv reader sees as one more
 (empty) column: a data section whose rows carry one extra trailing entry is read to the same
 values -/
-theorem readText_trailing_column {α} (rows : List (List α)) (nodes vd : Nat) (x : List α → α)
-    (hu : ∀ r ∈ rows, r.length = vd) :
-    readText (rows.map fun r => r ++ [x r]) nodes vd = readText rows nodes vd := by
+theorem readText_trailing_column {α} (nan : α) (rows : List (List α)) (nodes vd : Nat) (x : List α → α)
+    (hvd : 0 < vd) (hu : ∀ r ∈ rows, r.length = vd) :
+    readText nan (rows.map fun r => r ++ [x r]) nodes vd = readText nan rows nodes vd := by
   unfold readText
   rw [← List.map_take]
   cases ht : rows.take nodes with
@@ -29,28 +29,53 @@ theorem readText_trailing_column {α} (rows : List (List α)) (nodes vd : Nat) (
       intro y hy; rw [← ht] at hy; exact hu y (List.mem_of_mem_take hy)
     have hr := hu' r (by simp)
     have hne : ¬ (vd = vd + 1) := by omega
-    have h1 : ((r :: rs).all fun y => y.length == ((r :: rs).headD []).length) = true :=
+    have h0 : (r :: rs).any (fun y => y.isEmpty) = false := by
+      rw [List.any_eq_false]
+      intro y hy
+      have := hu' y hy
+      cases y with
+      | nil => simp at this; omega
+      | cons _ _ => simp
+    have h0' : ((r :: rs).map fun r => r ++ [x r]).any (fun y => y.isEmpty) = false := by
+      rw [List.any_eq_false]
+      intro y hy
+      obtain ⟨z, hz, rfl⟩ := List.mem_map.mp hy
+      simp
+    have h1 : ((r :: rs).all fun y => decide (y.length ≤ ((r :: rs).headD []).length)) = true :=
       List.all_eq_true.mpr (fun y hy => by simp [hu' y hy, hr])
     have h2 : (((r :: rs).map fun r => r ++ [x r]).all fun y =>
-        y.length == (((r :: rs).map fun r => r ++ [x r]).headD []).length) = true := by
+        decide (y.length ≤ (((r :: rs).map fun r => r ++ [x r]).headD []).length)) = true := by
       apply List.all_eq_true.mpr
       intro y hy
       obtain ⟨z, hz, rfl⟩ := List.mem_map.mp hy
       simp [hu' z hz, hr]
-    rw [h1, h2]
+    rw [h0, h0', h1, h2]
     simp only [List.map_cons, List.isEmpty_cons, Bool.false_eq_true, if_false, Bool.not_true, List.headD_cons,
       List.length_append, List.length_cons, List.length_nil, hr, hne, if_true]
-    have := flatMap_take_append (r :: rs) vd (fun r => [x r]) hu'
-    simp only [List.map_cons] at this
-    rw [this]
-
+    congr 1
+    have e1 : ((r ++ [x r]) :: rs.map fun r => r ++ [x r]).flatMap (fun r => (padRow nan (vd + 1) r).take vd)
+        = (r :: rs).flatten := by
+      have := flatMap_take_append (r :: rs) vd (fun r => [x r]) hu'
+      simp only [List.map_cons] at this
+      rw [← this]
+      apply List.flatMap_congr
+      intro y hy
+      have hy' : y ∈ (r :: rs).map fun r => r ++ [x r] := by simpa using hy
+      obtain ⟨z, hz, rfl⟩ := List.mem_map.mp hy'
+      rw [padRow_full nan (vd + 1) _ (by simp [hu' z hz])]
+    have e2 : (r :: rs).flatMap (padRow nan vd) = (r :: rs).flatten := by
+      rw [List.flatten_eq_flatMap]
+      apply List.flatMap_congr
+      intro y hy
+      exact padRow_full nan vd y (hu' y hy)
+    rw [e1, e2]
 
 /-- reading a text file depends on its data section only through what `readText` makes of the
 rows for the `valuedim` of the header -/
 theorem fromOvf_text_congr {α} [DecidableEq α] (c : Codec α) (isWord : Char → Bool) (reserved : String → Bool)
     (F : OvfFile α) (rows rows' : List (List α)) (footer footer' : List String) (hb : F.body = .text rows footer)
     (hrows : ∀ h ws vd nodes, scan F.lines [] = some (h, ws) → valueDim F.first h = .ok vd →
-      readText rows' nodes vd = readText rows nodes vd)
+      readText c.nan rows' nodes vd = readText c.nan rows nodes vd)
     (side : Option (List (String × Region))) :
     fromOvf c isWord reserved ({ F with body := .text rows' footer' } : OvfFile α) side
       = fromOvf c isWord reserved F side := by
